@@ -110,7 +110,15 @@ func aabbCase(c *run.Ctx) run.Result {
 		off = vscale(randUnit(r), pow10(r.Intn(7))*(1+r.Float64()))
 		offKind = fmt.Sprintf("off1e%d", decade(vmaxabs(off)))
 	}
-	pt := func() v3 { return vadd(off, vscale(v3{r.NormFloat64(), r.NormFloat64(), r.NormFloat64()}, scale)) }
+	zeroes := func(p v3) v3 { // now and then a coordinate that is exactly +0 or -0
+		if r.Intn(6) == 0 {
+			p[r.Intn(3)] = []float64{0, negZero}[r.Intn(2)]
+		}
+		return p
+	}
+	pt := func() v3 {
+		return zeroes(vadd(off, vscale(v3{r.NormFloat64(), r.NormFloat64(), r.NormFloat64()}, scale)))
+	}
 
 	type item struct {
 		min, max v3 // a point has min == max
@@ -200,6 +208,9 @@ func aabbCase(c *run.Ctx) run.Result {
 		site := ""
 		if r.Intn(3) > 0 {
 			p, kind := genPointNear(r, cur, scale, off)
+			if kind != "corner" && kind != "face" && kind != "ulp-outside" {
+				p = zeroes(p)
+			}
 			see(p)
 			it = item{p, p, s, "point (" + kind + ")"}
 			site = "AABB.EncapsulatePoint"
